@@ -81,6 +81,7 @@ type Runner struct {
 	Stubs                                         map[string]bool
 	Assumes                                       map[string]bool
 	EngineErrors                                  map[string]int
+	XSamples                                      []xSample
 }
 
 func NewRunner(l *Loaded, workers int, solverBin string, timeoutMs int) *Runner {
@@ -223,6 +224,10 @@ func (r *Runner) worker(w int) {
 		r.SolverTime += x.solver.Time
 		if x.solver.MaxQuery > r.MaxQuery {
 			r.MaxQuery = x.solver.MaxQuery
+		}
+		r.XSamples = append(r.XSamples, x.solver.Samples...)
+		if x.solver.slowest != nil {
+			r.XSamples = append(r.XSamples, *x.solver.slowest)
 		}
 		for f := range x.funcsRun {
 			r.Funcs[f.String()] = instrCount(f)
